@@ -35,6 +35,8 @@ N2V(xs) == Len(xs) * SumSq(xs) - SumI(xs) * SumI(xs)
 \* sorted (ascending) fixed-point values
 RECURSIVE Insert(_, _)
 Insert(v, s) == IF s = <<>> THEN <<v>> ELSE IF v <= Head(s) THEN <<v>> \o s ELSE <<Head(s)>> \o Insert(v, Tail(s))
+RECURSIVE JoinCs(_)
+JoinCs(xs) == IF xs = <<>> THEN <<>> ELSE IF Len(xs) = 1 THEN xs[1].cs ELSE xs[1].cs \o <<",">> \o JoinCs(Tail(xs))
 RECURSIVE SortF(_)
 SortF(xs) == IF xs = <<>> THEN <<>> ELSE Insert(Head(xs).v, SortF(Tail(xs)))
 CeilDiv(a, b) == (a + b - 1) \div b
@@ -89,6 +91,9 @@ Ok(fn, e, xs, p, nrows) ==
                              \/ (IF ps = <<>> THEN IsNull(e) ELSE Same(e, ps[Len(ps)]))
                              \/ (p = 1 /\ xs # <<>> /\ IsMissing(xs[Len(xs)]) /\ IsNull(e))
     [] fn = "nth_value"   -> LET nn == NonNull(xs) IN IF Len(nn) < p THEN IsNull(e) ELSE Same(e, nn[p])
+    \* merge_agg over TEXT values: the texts joined by commas, in arrival order (an empty text is a value: it keeps its comma). Any other
+    \* input (NULL, absent, numbers, objects) leaves the result open: documentation and behaviour disagree there
+    [] fn = "merge_agg"   -> (\E i \in 1..Len(xs) : ~IsStr(xs[i])) \/ (IsStr(e) /\ e.cs = JoinCs(xs))
     [] fn = "collect"     -> Same(e, [k |-> "list", v |-> NonNull(xs)])
     [] fn = "deduplicate" -> Same(e, [k |-> "list", v |-> Dedup(NonNull(xs), {})])
     [] OTHER -> FALSE
